@@ -9,7 +9,7 @@ which slots have which creator":
   constant folding, `decompose_ext_to_base_coeffs` = hint + recompose row + connect);
 * the acceptance conditions these rows are subject to: Poseidon2 circuit AIR
   (`poseidon2-circuit-air/src/air.rs`: out = perm(in); compact D=1 layout: capacity chained
-  in-table under `when_transition`, so *table row 0's capacity cells are not constrained*),
+  in-table; with fixes/C06-1.diff the start-of-chain capacity is also asserted on table row 0),
   recompose AIR (`circuit-prover/src/air/recompose_air.rs`: one bus tuple
   `(output_idx, main columns)`, no constraint, coefficient slots are not on the bus),
   ALU add row for the length tag;
@@ -193,8 +193,8 @@ def ev1 (w : Slot → K) : Sym → K
   | .k cs => ofNat (cs.headD 0)
   | .s x => w x
 
-/-- Capacity cells of a D = 1 permutation row. The chaining constraints are gated by
-`when_transition` on the *previous* row, so table row 0 (`first`) is free. -/
+/-- Capacity cells of a D = 1 permutation row. `first cap0`: the committed cells of table
+row 0; `prev out`: chained from the previous row's output. -/
 inductive Chain (K : Type) where
   | first (cap0 : List K)
   | prev (out : List K)
@@ -204,13 +204,22 @@ def capIn (c : Cfg) : Chain K → Bool → List K
   | .prev _, true => List.replicate (c.width - c.rate) 0
   | .prev out, false => out.drop c.rate
 
+/-- The start-of-chain constraint on table row 0 (fixes/C06-1.diff: the assertion
+"next row is a sponge chain start ⇒ its capacity is the length tag" is no longer gated by
+`when_transition`, so it also holds on the wrap-around window whose `next` row is row 0):
+a `new_start` row 0 has zero capacity cells (before the tag). A row 0 that is not a chain start
+stays unconstrained, as in the AIR. -/
+def firstRowOk (c : Cfg) : Chain K → Bool → Bool
+  | .first c0, true => decide (c0 = List.replicate (c.width - c.rate) 0)
+  | _, _ => true
+
 /-- Acceptance of the D = 1 rows under the assignment `w` (readers agree with creators, C04)
 and the committed capacity cells `cap0` of table row 0. -/
 def accD1 (c : Cfg) (π : List K → List K) (w : Slot → K) : Chain K → List Row → Bool
   | _, [] => true
   | ch, Row.perm ns al ins ex _ :: rs =>
     let out := π (ins.map (ev1 w) ++ addHead (ofNat al) (capIn c ch ns))
-    decide (ex.map w = out.take c.rate) && accD1 c π w (.prev out) rs
+    firstRowOk c ch ns && decide (ex.map w = out.take c.rate) && accD1 c π w (.prev out) rs
   | ch, _ :: rs => accD1 c π w ch rs
 
 /-- Native `DuplexChallenger`; `nobs` counts the observed values consumed so far. -/
